@@ -72,7 +72,11 @@ def c06(tier):
 def c07(tier):
     t0 = time.time()
     cov, viols, inc = vec.run("C07", tier)
-    cov["rule"] = VEC_RULE + ("Judge: shadow of capacity()/data()/element addresses and identities before and after every call: size<=capacity<=max_size, capacity "
+    # swap2 between two heap-backed vectors is a swap too: the state-pair grid of C13 judges the buffer hand-over
+    c2, v2, i2 = sets.run_engine("C07", tier, vec.SWAP2_QUICK + (vec.SWAP2_THOROUGH if tier == "thorough" else []), 120, 120,
+                                 extra_args=["--wide"] if tier == "thorough" else [], crash_owners=())
+    cov, viols, inc = sets.merge_cov(cov, c2), viols + v2, inc + i2
+    cov["rule"] = VEC_RULE + ("Plus the swap2 state-pair grid (hand-over rule for two heap-backed vectors of the same allocator type whose capacities fit both size types). ""Judge: shadow of capacity()/data()/element addresses and identities before and after every call: size<=capacity<=max_size, capacity "
                               "only decreases through shrink_to_fit/move/swap, no reallocation when the result fits, elements before the point untouched (per-object "
                               "event stamps), buffer hand-over on move/swap of heap-backed vectors without element events.")
     return core.finish("C07", tier, "exploration", cov, viols, inc, t0, ASSUME_SAN, min_evals=1000)
